@@ -10,6 +10,7 @@ CONSTANTS
   Refs <- I_Zero
   Masses <- I_One
   IPoss <- V_Zero
+  IRots <- R_One
   SitePos <- V_One
   SiteRots <- R_XZ
   Zones <- Z_All
